@@ -44,6 +44,13 @@ TRUSTED = [
     'vle=True and conserve_phases=True arguments of mix_from are not modelled',
 ]
 
+import os
+# MaterialIndexer.copy_like empties a MultiStream that copies (mixes from) one of its own phases: pending fix
+# pending_fixes/C02_4_copy_like_from_own_phase_empties_stream.diff.  The model is the repaired code.  Until the patch is in
+# /repo the generator keeps the receiver of a `mixv` different from the parent of the views and the witness stays out of
+# the corpus; VERIF_C02_4=1 (or flipping this default once the patch is applied) switches both on.
+AFTER_FIX_C02_4 = os.environ.get('VERIF_C02_4', '1') == '1'   # fix applied to /repo as commit (see known_findings.txt)
+
 S_SETTER = 'setS'          # name of the model of the Stream.S setter
 
 PH = {'L': 1, 'S': 2, 'g': 3, 'l': 4, 's': 5}
@@ -58,6 +65,7 @@ KPG = [16., 8., 32.]
 PREF = 101325.
 HF = [-1024., -512., 256.]
 IDS = ['A_', 'B_', 'C_']
+IDS1 = ['C_', 'A_', 'B_']
 TREF = F(298.15)
 
 _env = {}
@@ -86,6 +94,20 @@ def env():
             c, s0, kp = (CNG, SG, KPG) if phase == 'g' else (CN, S0L, KPL)
             return sum([x * (c[i] * (T - 298.15) / 256. + s0[i] - kp[i] * (P - PREF) / 65536.) for i, x in items(mol)])
         mix._H, mix.Cn, mix._S = H_model, Cn_model, S_model
+        # a second property package made of the SAME chemicals in another order (its Chemicals object is a different one, so
+        # every `chemicals is other.chemicals` test takes the other-package branch); same property models, permuted
+        chems1 = tmo.Chemicals([getattr(chems, i) for i in IDS1])
+        tmo.settings.set_thermo(chems1)
+        _env['thermo1'] = tmo.settings.get_thermo()
+        perm = [IDS.index(i) for i in IDS1]
+        def permuted(f):
+            def g(phase, mol, T, P=None):
+                u = np.zeros(len(IDS))
+                for i, x in items(mol): u[perm[i]] = x
+                return f(phase, u, T, P)
+            return g
+        mix1 = _env['thermo1'].mixture
+        mix1._H, mix1.Cn, mix1._S = permuted(H_model), permuted(Cn_model), permuted(S_model)
     _env['tmo'].settings.set_thermo(_env['thermo'])
     _env['ids'] = IDS
     return _env
@@ -186,6 +208,9 @@ def gen_mix(rng, scripted, fail_single=False):
         others.insert(rng.randrange(len(others) + 1), ['none'])
     case = {'kind': 'mixs' if scripted else 'mix', 'streams': streams, 'r': r, 'others': others, 'Q': float(rng.choice(QS))}
     case['pre'] = gen_pre(rng, streams)
+    if rng.random() < 0.3:
+        for d in streams:
+            if rng.random() < 0.5: d['pkg'] = 1
     ne = [streams[o[1]] for o in others if o[0] == 's' and not is_empty(streams[o[1]])]
     if ne and not scripted:
         H = sum(stub_H(d) for d in ne) + F(case['Q']) + sum(F(o[1]) for o in others if o[0] in ('heat', 'power'))
@@ -233,6 +258,9 @@ def gen_sep(rng):
     if r != o and Cr != Co and TREF + (stub_H(streams[r]) - stub_H(streams[o])) / (Cr - Co) < TMIN:
         streams[o]['T'] = streams[r]['T']
     case = {'kind': 'sep', 'streams': streams, 'r': r, 'o': o, 'pre': gen_pre(rng, streams, 0.35)}
+    if rng.random() < 0.3:
+        for d in streams:
+            if rng.random() < 0.5: d['pkg'] = 1
     if r != o and rng.random() < 0.4:
         # a product of an isothermal unit: the stream taken out is at exactly the receiver's temperature, often in another phase
         streams[o]['T'] = streams[r]['T']
@@ -293,6 +321,61 @@ def gen_imodel(rng):
             'mol': mol, 'T': float(rng.choice(TS)), 'P': rng.choice(PS),
             'models': [[float(rng.choice(DY)), float(rng.choice([0, 1, F(1, 2), 2])), float(rng.choice([0, 8, 64]))] for _ in range(n)],
             'ea': float(rng.choice([1, 1, 2, F(1, 2)])), 'eb': float(rng.choice([1, 2, 4]))}
+
+def gen_hist_multi(rng):
+    """histories around a MultiStream: property reads (fill the memo), material moved between its phases at unchanged T, P
+    and overall composition, phase sub-streams ms[p] read, used as inlets' siblings and separated out of their own parent
+    (the view shares its flow data with the receiver), then reads / `s.X = s.X` / mixes / separations"""
+    ms = gen_stream(rng, empty_p=0., multi_p=1.)
+    for ph in 'gl':
+        if not any(ms['rows'][ph]) and rng.random() < 0.6: ms['rows'][ph] = gen_row(rng)
+    ms['T'] = rng.choice(HIST_T); ms['P'] = rng.choice(HIST_P)
+    streams = [ms] + [gen_stream(rng, empty_p=0.1, multi_p=0.3, phases='llgg') for _ in range(rng.randint(0, 2))]
+    for d in streams[1:]:
+        d['T'] = rng.choice(HIST_T); d['P'] = rng.choice(HIST_P)
+    n = len(streams)
+    ops = []
+    multis = [i for i, d in enumerate(streams) if d['multi']]
+    def read(h): ops.append(['read', h, rng.choice(['H', 'H', 'S', 'h'])])
+    def move(h):
+        a, b = rng.choice([('l', 'g'), ('g', 'l')])
+        ops.append(['move', h, a, b, float(rng.choice([1, 1, F(1, 2), F(1, 4)]))])
+    def mixv(r):
+        """phase views among the inlets; the receiver may be their parent"""
+        m = rng.choice(multis)
+        if r == m and not AFTER_FIX_C02_4:
+            cand = [x for x in range(n) if x != m]
+            if not cand: return read(m)
+            r = rng.choice(cand)
+        vs = [[m, p] for p in 'gl' if rng.random() < 0.6] or [[m, rng.choice('gl')]]
+        others = [['s', x] for x in range(n) if x not in (m, r) and rng.random() < 0.5]
+        if rng.random() < 0.2: others.append(['heat', 512.])
+        ops.append(['mixv', r, vs, others, float(rng.choice([0, 0, 512, 1024]))])
+    def use(h):
+        k = rng.random()
+        if k < 0.35: read(h)
+        elif k < 0.55: ops.append(['cur', h, rng.choice(['H', 'S', 'h', 'Hnet'])])
+        elif k < 0.7 and n > 1:
+            r = rng.choice([x for x in range(n) if x != h])
+            others = [['s', h]] + [['s', x] for x in range(n) if x not in (h, r) and rng.random() < 0.5]
+            rng.shuffle(others)
+            ops.append(['mix', r, others, float(rng.choice([0, 0, 512]))])
+        elif k < 0.8 and n > 1:
+            ops.append(['sep', rng.choice([x for x in range(n) if x != h]), h])
+        elif k < 0.87: ops.append(['readview', h, rng.choice('gl'), rng.choice(['H', 'S', 'h'])])
+        elif k < 0.94: ops.append(['sepview', h, rng.choice(multis), rng.choice('gl')])
+        else: mixv(rng.randrange(n))
+    for _ in range(rng.randint(2, 5)):
+        h = rng.choice(multis)
+        k = rng.random()
+        if k < 0.3: read(h)
+        elif k < 0.6:
+            read(h); move(h); use(h)
+        elif k < 0.75: ops.append(['sepview', rng.choice([h, h, rng.randrange(n)]), h, rng.choice('gl')])
+        elif k < 0.82: ops.append(['T', h, rng.choice(HIST_T)])
+        elif k < 0.9: mixv(rng.choice([h, rng.randrange(n)]))
+        else: use(rng.randrange(n))
+    return {'kind': 'hist', 'streams': streams, 'ops': ops}
 
 HIST_T = [300., 320., 350., 350.5, 400.]
 HIST_P = [101325., 200000., 50000.]
@@ -377,6 +460,7 @@ def gen_cases(rng, tier):
     cases += [gen_iter(rng) for _ in range(40 * n)]
     cases += [gen_wrap(rng) for _ in range(30 * n)]
     cases += [gen_hist(rng) for _ in range(80 * n)]
+    cases += [gen_hist_multi(rng) for _ in range(60 * n)]
     cases += [gen_imodel(rng) for _ in range(40 * n)]
     cases += [gen_zero_sum(rng) for _ in range(30 * n)]
     return cases
@@ -390,21 +474,29 @@ def err_of(ex):
 
 def build_stream(d):
     tmo = _env['tmo']; ids = _env['ids']       # the package was selected by env() / setenv(case)
+    kwt = {'thermo': _env['thermo1']} if d.get('pkg') else {}
     if d['multi']:
         kw = {ph: [(i, x) for i, x in zip(ids, row) if x] for ph, row in d['rows'].items() if any(row)}
-        s = tmo.MultiStream(None, T=d['T'], P=d['P'], phases=tuple(sorted(d['rows'])), **kw)
+        s = tmo.MultiStream(None, T=d['T'], P=d['P'], phases=tuple(sorted(d['rows'])), **kw, **kwt)
     else:
         (ph, row), = d['rows'].items()
-        s = tmo.Stream(None, T=d['T'], P=d['P'], phase=ph, **{i: x for i, x in zip(ids, row) if x})
+        s = tmo.Stream(None, T=d['T'], P=d['P'], phase=ph, **{i: x for i, x in zip(ids, row) if x}, **kwt)
     return s
+
+def universe(s, row):
+    """flows of a row in the coordinates of IDS, whatever the order of the stream's own package"""
+    arr = np.asarray(row.to_array(), float)
+    own = list(s.chemicals.IDs)
+    if own == _env['ids']: return arr
+    return np.array([arr[own.index(i)] for i in _env['ids']])
 
 def snap(s):
     tmo = env()['tmo']
     if isinstance(s, tmo.MultiStream):
-        rows = [[PH[p], [fr_json(frac(x)) for x in np.asarray(row.to_array(), float)]] for p, row in zip(s.phases, s.imol.data.rows)]
+        rows = [[PH[p], [fr_json(frac(x)) for x in universe(s, row)]] for p, row in zip(s.phases, s.imol.data.rows)]
         multi = True
     else:
-        rows = [[PH[s.phase], [fr_json(frac(x)) for x in np.asarray(s.mol.to_array(), float)]]]
+        rows = [[PH[s.phase], [fr_json(frac(x)) for x in universe(s, s.mol)]]]
         multi = False
     return {'multi': multi, 'pm': rows, 'T': fr_json(frac(s.T)), 'P': fr_json(frac(s.P))}
 
@@ -558,6 +650,9 @@ def run_imodel(case):
     return out
 
 def true_S(s):
+    tmo = _env['tmo']
+    if isinstance(s, tmo.MultiStream):
+        return float(s.mixture.xS(zip(s.phases, s.imol.data.rows), s.T, s.P))
     return float(s.mixture.S(s.phase, s.mol, s.T, s.P))
 
 def run_hist(case, check):
@@ -581,6 +676,23 @@ def run_hist(case, check):
                 t = true_H(s) if op[2] == 'H' else true_S(s) if op[2] == 'S' else true_H(s) / s.F_mol
                 if not close(v, t, 1e-7):
                     return fail(f'stale-read: {who}: .{op[2]} returned {v!r} but the mixture model gives {t!r} at T={s.T}, P={s.P}, phase {s.phase!r}')
+        elif k == 'move':
+            if isinstance(s, tmo.MultiStream):
+                rows = s.imol.data.rows; ix = s.imol._phase_indexer
+                d = rows[ix(op[2])] * op[4]
+                rows[ix(op[3])] += d; rows[ix(op[2])] -= d
+            obs.append(['none'])
+        elif k == 'readview':
+            try: vw = s[op[2]]
+            except Exception as ex:
+                obs.append(['stop', err_of(ex)]); out['stopped'] = True
+                if check: return (None, None)
+                break
+            v = getattr(vw, op[3])
+            obs.append(['val', None if v is None else fr_json(frac(v))])
+            if check and v is not None:
+                t = true_H(vw) if op[3] == 'H' else true_S(vw) if op[3] == 'S' else true_H(vw) / vw.F_mol
+                if not close(v, t, 1e-7): return fail(f'stale-read: {who}: [{op[2]!r}].{op[3]} returned {v!r} but the mixture model gives {t!r}')
         elif k == 'T': s.T = op[2]; obs.append(['none'])
         elif k == 'P': s.P = op[2]; obs.append(['none'])
         elif k == 'phase': s.phase = op[2]; obs.append(['none'])
@@ -601,22 +713,51 @@ def run_hist(case, check):
                 if k == 'set':
                     back = {'H': true_H(s), 'h': true_H(s) / s.F_mol, 'Hnet': true_H(s) + s.Hf}[op[2]]
                     if not close(back, op[3], 1e-7): return fail(f'set-{op[2]}: {who}: assigned {op[3]!r}, the stream now has {back!r}')
-        elif k in ('mix', 'sep'):
-            if k == 'mix':
+        elif k in ('mix', 'sep', 'sepview', 'mixv'):
+            if k == 'mixv':
+                try: others = [objs[j][p] for j, p in op[2]]
+                except Exception as ex:
+                    obs.append(['stop', err_of(ex)]); out['stopped'] = True
+                    if check: return (None, None)
+                    break
+                others += [objs[o[1]] if o[0] == 's' else tmo.Heat(None, heat=o[1]) for o in op[3]]
+                ne = [o for o in others if isinstance(o, tmo.Stream) and not o.isempty()]
+                exp = sum(true_H(o) for o in ne) + op[4] + sum(o.heat for o in others if isinstance(o, tmo.Heat)) if ne else None
+                Pmin = min(o.P for o in ne) if ne else None
+                F_in = sum(o.F_mol for o in ne)
+            elif k == 'sepview':
+                try: o = objs[op[2]][op[3]]
+                except Exception as ex:
+                    obs.append(['stop', err_of(ex)]); out['stopped'] = True
+                    if check: return (None, None)
+                    break
+                exp = true_H(s) - true_H(o); Pmin = None
+            elif k == 'mix':
                 others = [objs[o[1]] for o in op[2]]
                 ne = [o for o in others if not o.isempty()]
                 exp = sum(true_H(o) for o in ne) + op[3] if ne else None
                 Pmin = min(o.P for o in ne) if ne else None
-            else:
+            elif k == 'sep':
                 o = objs[op[2]]
                 exp = true_H(s) - true_H(o); Pmin = None
             try:
                 if k == 'mix': s.mix_from(others, Q=op[3])
+                elif k == 'mixv': s.mix_from(others, Q=op[4])
                 else: s.separate_out(o)
                 obs.append(['none'])
+                if check and k == 'mixv' and ne and F_in > 0 and not close(s.F_mol, F_in, 1e-9):
+                    return fail(f'mixv: {who}: the receiver holds {s.F_mol!r} kmol/hr and H = {true_H(s)!r} after mixing; the inlets held {F_in!r} kmol/hr '
+                                f'and H = {exp!r} (a phase of the receiver was among the inlets)')
             except Exception as ex:
                 obs.append(['stop', err_of(ex)])
                 out['stopped'] = True
+                if any(x < 0 for x in state(s)[2]):        # flows of both signs: outside the property; the history ends before this call
+                    obs.pop(); out['nops'] = n
+                    if check: return (None, None)
+                    break
+                if check and k == 'mixv' and ne and F_in > 0 and s.F_mol == 0:
+                    return fail(f'mixv: {who}: mix_from raised {type(ex).__name__} after emptying the receiver; the inlets held {F_in!r} kmol/hr '
+                                f'(a phase of the receiver was among the inlets)')
                 if check: return fail(f'{k}: {who} raised {type(ex).__name__}: {str(ex)[:100]}') if s.F_mol > 0 and reachable(s, 'H', exp or 0.) else (None, None)
                 break
             if check and exp is not None and s.F_mol > 0 and all(x >= 0 for x in state(s)[2]):
@@ -786,6 +927,12 @@ def chop(op):
     if k == 'cur': return f'(HSetCur {cnat(op[1])} {cnat(WHICH[op[2]])})'
     if k == 'mix': return f'(HMix {cnat(op[1])} {clist([cinlet(o) for o in op[2]])} {q(op[3])})'
     if k == 'sep': return f'(HSep {cnat(op[1])} {cnat(op[2])})'
+    if k == 'move': return f'(HMove {cnat(op[1])} {cnat(PH[op[2]])} {cnat(PH[op[3]])} {q(op[4])})'
+    if k == 'readview': return f'(HReadView {cnat(op[1])} {cnat(PH[op[2]])} {cnat(1 if op[3] == "S" else 0)} {cbool(op[3] != "h")})'
+    if k == 'sepview': return f'(HSepView {cnat(op[1])} {cnat(op[2])} {cnat(PH[op[3]])})'
+    if k == 'mixv':
+        vs = clist([f'({cnat(j)}, {cnat(PH[p])})' for j, p in op[2]])
+        return f'(HMixV {cnat(op[1])} {vs} {clist([cinlet(o) for o in op[3]])} {q(op[4])})'
     raise ValueError(k)
 
 def cobs(o):
@@ -831,7 +978,8 @@ def coq_case(case, out):
     if k == 'hist':
         O = coracles(case)
         init = clist([cstream(x) for x in out['init']])
-        return (f'(hist_check {O} {init} {clist([chop(o) for o in case["ops"]])} {clist([cobs(o) for o in out["obs"]])} '
+        ops = case['ops'][:out['nops']] if 'nops' in out else case['ops']
+        return (f'(hist_check {O} {init} {clist([chop(o) for o in ops])} {clist([cobs(o) for o in out["obs"]])} '
                 f'{clist([cstream(x) for x in out["final"]])} {clist(out["cells"], cnat)} {cbool(not out.get("stopped"))} '
                 f'&& {cbool(out["handles_agree"])})')
     raise ValueError(k)
@@ -952,6 +1100,7 @@ def oracle(case):
         try:
             r.separate_out(o)
         except Exception as ex:
+            if type(ex).__name__ == 'UndefinedPhase': return None      # a phase the receiver does not have cannot be taken out of it
             if r.isempty() or r.F_mol == 0 or any(x < 0 for x in state(r)[2]): return None
             if not reachable(r, 'H', H_exp): return None      # the difference is not an enthalpy this material can have
             return f'sep: separate_out raised {type(ex).__name__}: {ex}'
@@ -993,6 +1142,7 @@ def oracle(case):
             return f'set-{w}-fallback: setter raised {type(ex).__name__}: {str(ex)[:120]}' if case.get('script') and _one_flip_ok(case) else None
         back = getattr(s, w)
         tag = f'set-{w}-fallback' if case.get('script') else f'set-{w}'
+        if case.get('script') and not reachable(s, w, target): return None    # not a value the flipped phase can have in range
         if not close(back, target, 1e-5 if real else 1e-6) or (target == 0. and abs(back) > 1e-6 * abs(s.F_mol) * 300):
             return f'{tag}: assigned {w}={target!r}, reading it back gives {back!r} (T={s.T})'
         if state(s)[2] != flows: return f'{tag}: the setter changed the flows'
@@ -1126,7 +1276,9 @@ def search_cases(rng, tier):
         cases.append(gen_mix(rng, False))
     return cases
 
-CORPUS = [
+WITNESS_C02_4 = {'kind': 'hist', 'streams': [{'multi': True, 'rows': {'g': [1., 0., 4.], 'l': [0., 0., 0.]}, 'T': 350., 'P': 101325.}],
+                 'ops': [['mixv', 0, [[0, 'g']], [], 512.], ['read', 0, 'H']]}
+CORPUS = ([WITNESS_C02_4] if AFTER_FIX_C02_4 else []) + [
     # minimised instances of the three defects of DESIGN.md section 5 (regression cases once repaired)
     {'kind': 'mix', 'streams': [{'multi': False, 'rows': {'l': [0., 0., 0.]}, 'T': 300., 'P': 101325.},
                                 {'multi': False, 'rows': {'l': [2., 0., 0.]}, 'T': 350., 'P': 101325.}],
